@@ -5,6 +5,7 @@ import Gaftools.Props.C06d
 import Gaftools.Props.C06e
 import Gaftools.Props.TieA2
 import Gaftools.Props.C06f
+import Gaftools.Props.C06g
 #print axioms Gaftools.C18.runOrder_ranges
 #print axioms Gaftools.C18.numberChain_scaffold
 #print axioms Gaftools.C18.numberChain_bubble
@@ -34,3 +35,6 @@ import Gaftools.Props.C06f
 #print axioms Gaftools.C06.scaffold_connected
 #print axioms Gaftools.C06.decompose_ok_chain_full
 #print axioms Gaftools.C06.chainCorrect
+#print axioms Gaftools.C06.chainSpecB_shift
+#print axioms Gaftools.C06.decompose_congr
+#print axioms Gaftools.C06.orderRun_chain
